@@ -11,7 +11,7 @@ import os, re, shutil, subprocess
 from concurrent.futures import ThreadPoolExecutor
 
 SUFFIXES = ["-nun.data.keys", "-nun.data.values", "-nun.madadata", "-nun.data.keys.old", "-nun.data.values.old"]
-GLOBALS = ["keys-nun.keys", "is-oplog.valid", "oplog-nun.op"] + ["oplog-nun.op.%d" % i for i in range(0, 12)]
+GLOBALS = ["keys-nun.keys", "keys-nun.keys.tmp", "is-oplog.valid", "oplog-nun.op"] + ["oplog-nun.op.%d" % i for i in range(0, 12)]
 KINDS = ["write", "pwrite64", "rename", "unlink"]
 ALLSYS = "write,pwrite64,pwritev,writev,rename,renameat,renameat2,unlink,unlinkat,truncate,ftruncate"
 MAXKILLS = 600
@@ -69,15 +69,22 @@ def run_case(case, drv, wd, phase_c, env_extra=None, kill_stride=1, extra_env_b=
     dbs = [h for h in hdr if not h.startswith("@")]
     obs, aux = [], []
     dA = os.path.join(wd, "A")
-    rc, out, err = _run([drv, "crashb", cf, dA, "A"], env)
-    a_replies = [l[2:] for l in out if l.startswith("R ")]
-    obs.append("A " + ";".join(a_replies))
-    ga = orders_of(err)
-    for j, g in enumerate(ga[1:]):
-        aux.append("#orderA %d %s" % (j, " ".join(g)))
-    if rc != 0 or "END" not in out:
-        obs.append("A-DIED rc=%d" % rc)
-        return {"obs": obs, "aux": aux}
+    nseg = 1 + sum(1 for op in ops if op[0] == "---")
+    bseg = nseg - 1
+    fidx = 0
+    for sg in range(bseg):
+        rc, out, err = _run([drv, "crashb", cf, dA, str(sg)], env)
+        replies = [l[2:] for l in out if l.startswith("R ")]
+        start = next((l for l in out if l.startswith("START")), "START ?")
+        obs.append("A%d %s | %s" % (sg, start, ";".join(replies)))
+        ga = orders_of(err)
+        for g in ga[1:]:
+            aux.append("#orderA %d %s" % (fidx, " ".join(g))); fidx += 1
+        if sg > 0:
+            aux.append("#load %d %s" % (sg, " ".join(load_of(err))))
+        if rc != 0 or "END" not in out:
+            obs.append("A-DIED rc=%d" % rc)
+            return {"obs": obs, "aux": aux}
 
     def phase_c_run(d):
         rc, out, err = _run([drv, phase_c, d], env)
@@ -102,7 +109,7 @@ def run_case(case, drv, wd, phase_c, env_extra=None, kill_stride=1, extra_env_b=
             cmd += ["-e", "inject=%s:signal=KILL:when=%d" % (ty, n)]
         for p in data_paths(dn, dbs):
             cmd += ["-P", p]
-        cmd += [drv, "crashb", cf, dn, "B"]
+        cmd += [drv, "crashb", cf, dn, str(bseg)]
         envb = dict(env); envb.update(extra_env_b or {})
         rc, out, err = _run(cmd, envb)
         killed = "END" not in out
@@ -137,17 +144,19 @@ def run_case(case, drv, wd, phase_c, env_extra=None, kill_stride=1, extra_env_b=
             n += kill_stride
     klines.append(("write", 99999, False, fr, txt))
     aux.append("#kill write 99999 %s -- %s" % (" ".join(flat), " ".join(lo)))
-    aux.append("#loadB %s" % " ".join(lob))
+    aux.append("#load %d %s" % (bseg, " ".join(lob)))
     obs.append(start)
-    obs.append("B " + ";".join(fr[:-1] if fr and fr[-1] in ("Flushed",) else fr))
+    obs.append("B " + ";".join(fr[:-1] if fr and fr[-1] in ("Flushed", "Shutdown") else fr))
     if unexpected:
         obs.append("UNEXPECTED-SYSCALLS " + ",".join(unexpected))
     for ty, n, killed, replies, txt in klines:
         pre = "" if replies == fr[:len(replies)] else " DIVERGED-BEFORE-KILL[%s]" % ";".join(replies)
         obs.append("K %s %d %s%s %s" % (ty, n, "killed" if killed else "complete", pre, txt))
-    # K 0 goes after START/B in the model's order
-    k0 = obs.pop(1)
-    obs.insert(3, k0)
+    # K none 0 goes after START/B in the model's order
+    k0 = next(i for i, l in enumerate(obs) if l.startswith("K none 0 "))
+    l0 = obs.pop(k0)
+    kb = next(i for i, l in enumerate(obs) if l.startswith("B "))
+    obs.insert(kb + 1, l0)
     shutil.rmtree(wd, ignore_errors=True)
     return {"obs": obs, "aux": aux}
 
@@ -173,21 +182,23 @@ def augment_case(case, io):
     cid, hdr, ops = case
     if io is None:
         return case
-    oa, kills, loadb = {}, [], []
+    oa, kills, loads = {}, [], {}
     for a in io["aux"]:
         t = a.split(" ")
         if t[0] == "#orderA":
             oa[int(t[1])] = [x for x in t[2:] if x]
         elif t[0] == "#kill":
             kills.append(["kill"] + [x for x in t[1:] if x])
-        elif t[0] == "#loadB":
-            loadb = [x for x in t[1:] if x]
-    out, fi, part = [], 0, 0
+        elif t[0] == "#load":
+            loads[int(t[1])] = [x for x in t[2:] if x]
+    nseg = 1 + sum(1 for op in ops if op[0] == "---")
+    out, fi, seg = [], 0, 0
     for op in ops:
         if op[0] == "---":
-            out.append(["---"] + loadb); part = 1
-        elif op[0] == "flush" and part == 0:
-            out.append(["flush"] + oa.get(fi, [])); fi += 1
+            seg += 1
+            out.append(["---"] + loads.get(seg, []))
+        elif op[0] in ("flush", "shutdown") and seg < nseg - 1:
+            out.append([op[0]] + oa.get(fi, [])); fi += 1
         else:
             out.append(op)
     return (cid, hdr, out + kills)
